@@ -493,6 +493,19 @@ func runC14(r *Run) {
 		}
 		c14Case(r, types.PolicyThreshold(uint8(groups), outer), e0, nil, nil, "limits")
 	}
+	// the total exactly at the bound: 1023, 1024 (accepted), 1025 (too complex)
+	for _, sizes := range [][]int{{255, 255, 255, 254}, {255, 255, 255, 255}, {255, 255, 255, 255, 0}, {255, 255, 255, 255, 1}} {
+		var outer []types.SpendPolicy
+		for _, k := range sizes {
+			of := make([]types.SpendPolicy, k)
+			for i := range of {
+				of[i] = types.PolicyOpaque(types.PolicyAbove(uint64(i)))
+			}
+			outer = append(outer, types.PolicyThreshold(0, of))
+		}
+		c14Case(r, types.PolicyThreshold(uint8(len(sizes)), outer), e0, nil, nil, "limits")
+		r.count("limit-total-at-bound")
+	}
 	// standard addresses
 	for i := 0; i < 20; i++ {
 		pk := c14keys[i%4].PublicKey()
